@@ -57,3 +57,54 @@ Proof. destruct inseq; reflexivity. Qed.
 (* stand-alone pass (no parent): the global switch decides *)
 Theorem standalone auto before : rotation auto false before SUnset = if auto then RTrue else RFalse.
 Proof. destruct auto; reflexivity. Qed.
+
+(* THE STATED ANGLE OF AN EXPLICIT ROTATOR IS IRRELEVANT to the decision: two arrangements that differ only in the angles stated on
+   their rotators (0, 90, 180, -90, ... : a rotator stated as 0 is a rotator) give the same rotation value for every pass *)
+Definition unit_shape (a b : unit) : bool :=
+  match a, b with
+  | UPass s, UPass t => match s, t with
+                        | SUnset, SUnset | STrue, STrue | SFalse, SFalse | SZero, SZero => true
+                        | SAngle x, SAngle y => Z.eqb x y
+                        | _, _ => false end
+  | UTransport, UTransport | UOther, UOther => true
+  | URotator _, URotator _ => true
+  | _, _ => false
+  end.
+Fixpoint same_shape (a b : list unit) : bool :=
+  match a, b with [], [] => true | x :: r, y :: t => (unit_shape x y && same_shape r t)%bool | _, _ => false end.
+
+Lemma detect_shape a : forall b, same_shape a b = true -> detect a = detect b.
+Proof.
+  induction a as [|x r IH]; intros [|y t] H; cbn [same_shape] in H; try discriminate; [reflexivity|].
+  apply andb_prop in H. destruct H as [Hx Hr].
+  destruct x, y; cbn [unit_shape] in Hx; try discriminate; cbn [detect]; try reflexivity; apply IH; assumption.
+Qed.
+
+Lemma pass_shape_eq s t : unit_shape (UPass s) (UPass t) = true -> s = t.
+Proof.
+  destruct s, t; cbn; intro H; try discriminate; try reflexivity.
+  apply Z.eqb_eq in H. subst. reflexivity.
+Qed.
+
+Lemma rotations_from_shape auto l : forall l' b b', same_shape l l' = true -> same_shape b b' = true ->
+  rotations_from auto b l = rotations_from auto b' l'.
+Proof.
+  induction l as [|x r IH]; intros [|y t] b b' H Hb; cbn [same_shape] in H; try discriminate; [reflexivity|].
+  apply andb_prop in H. destruct H as [Hx Hr].
+  destruct x as [s| |a|], y as [s'| |a'|]; cbn [unit_shape] in Hx; try discriminate; cbn [rotations_from].
+  - pose proof (pass_shape_eq s s' Hx) as E. subst s'. f_equal.
+    + unfold rotation. destruct s; try reflexivity. rewrite (detect_shape b b' Hb). reflexivity.
+    + apply IH; [assumption|]. cbn [same_shape]. rewrite Hb. cbn [unit_shape].
+      destruct s; cbn; try reflexivity. rewrite Z.eqb_refl. reflexivity.
+  - apply IH; [assumption|]. cbn [same_shape unit_shape]. rewrite Hb. reflexivity.
+  - apply IH; [assumption|]. cbn [same_shape unit_shape]. rewrite Hb. reflexivity.
+  - apply IH; [assumption|]. cbn [same_shape unit_shape]. rewrite Hb. reflexivity.
+Qed.
+
+Theorem rotator_angle_irrelevant auto l l' : same_shape l l' = true -> rotations auto l = rotations auto l'.
+Proof. intro H. unfold rotations. apply rotations_from_shape; [assumption | reflexivity]. Qed.
+
+Example rotator_angle_irrelevant_example :
+  rotations true [UPass SUnset; URotator 0; UTransport; UPass SUnset] = rotations true [UPass SUnset; URotator 90; UTransport; UPass SUnset]
+  /\ rotations true [UPass SUnset; URotator 0; UTransport; UPass SUnset] = [RTrue; RFalse].
+Proof. split; reflexivity. Qed.
